@@ -131,7 +131,9 @@ def locate_diff(bin_a, bin_b, suite, tier, unit):
         return (longer[min(len(a), len(b))], "<missing: other build stopped / aborted earlier>")
     return None
 
-def part(prop, tier, seed, suite=None, profiles=("prel",), diff=False):
+VALUE_TAGS = {"C02", "C03", "C04", "C05", "C06", "C10", "C11", "C12", "C16", "*"}
+
+def part(prop, tier, seed, suite=None, profiles=("prel",), diff=False, all_tags=False):
     suite = suite or prop
     bins = {p: build_seq(p) for p in profiles}
     nsh = 64
@@ -143,7 +145,7 @@ def part(prop, tier, seed, suite=None, profiles=("prel",), diff=False):
     abandoned_all = []
     for prof, binary in bins.items():
         alphabet, terms, units = seq_info(binary, suite, tier)
-        rows, aborts, abandoned = run_profile(binary, suite, tier, seed, nsh, f"{prop}-e3-{prof}", cap)
+        rows, aborts, abandoned = run_profile(binary, suite, tier, seed, nsh, f"{prop}-{suite}-e3-{prof}", cap)
         abandoned_all += [(prof, u) for u in abandoned]
         pp = {"units": len(rows), "histories": 0, "runs": 0, "ops": 0, "aborts": len(aborts)}
         hashes[prof] = {u: r["hash"] for u, r in rows.items()}
@@ -160,7 +162,7 @@ def part(prop, tier, seed, suite=None, profiles=("prel",), diff=False):
                 samples.append({"profile": prof, "kind": r["kind"], "len": r["len"], "history|terminal": r["sample"]})
             for v in r["violations"]:
                 tags = v["tags"].split("+")
-                mine = prop in tags or "*" in tags
+                mine = prop in tags or "*" in tags or (all_tags and any(t in VALUE_TAGS for t in tags))
                 if not mine:
                     other_tags.update(t for t in tags)
                     continue
